@@ -2,10 +2,13 @@
 (* Bounded scenario universes for LoaderProc over the carrier grammar of    *)
 (* vt/drive/procs.py (DESIGN.md Appendix D with the C13/C34 variants):      *)
 (*                                                                          *)
-(*   Model:   ('model' name=ID)? imports*=Import ('first' first=Def)? elems*=Elem; *)
+(*   Model:   ('model' name=ID)? imports*=Import ('first' first=Def)?      *)
+(*            ('root' root=Pkg)? elems*=Elem;                               *)
 (*   Import:  'import' importURI=STRING;                                    *)
 (*   Elem:    Pkg | Grp | Box | Slot | Def | Use | UseList;                 *)
-(*   Pkg:     'pkg' name=ID '{' ('head' head=DefB)? ('defs' defs+=Def ';')? elems*=Elem '}'; *)
+(*   Pkg:     'pkg' name=ID '{' ('head' head=DefB)? ('defs' defs+=Def ';')? *)
+(*            elems*=Elem (note=Note)? '}';                                 *)
+(*   Note:    'note' name=ID;            reachable through Pkg.note only     *)
 (*   Grp:     items+=Def['&'] ';';       starts where its first item starts *)
 (*   Box:     inner=Cell;                has exactly the span of its content *)
 (*   Cell:    'cell' name=ID;                                               *)
@@ -45,6 +48,9 @@ SlotOK(s, p, k) ==
   LET lk == LastKidSlot(s, p) sl == CarrierMeta[s[p].kind][k] IN
   /\ IF sl.many THEN k >= lk ELSE k > lk
   /\ sl.decl = "Import" => s[p].file = 1 /\ Cardinality(KidsOfShape(s, p)) < MaxFiles - 1
+  \* Model.root and Pkg.note only matter for the processor walk (recursion entered through a
+  \* concrete rule, an attribute after the recursive one): the other families leave them out
+  /\ sl.name \in {"root", "note"} => Family \in {"c13", "shapes"}
 Obj(kd, p, sl, f, h, nr) == [kind |-> kd, parent |-> p, slot |-> sl, file |-> f, hdr |-> h, nref |-> nr]
 TotalRefs(s) == LET RECURSIVE Sum(_)
                     Sum(i) == IF i = 0 THEN 0 ELSE s[i].nref + Sum(i - 1)
@@ -166,14 +172,15 @@ RelevantRules(s) == UNION {{s[o].kind, IF s[o].parent = 0 THEN s[o].kind
 FullTables == atoi(IOEnv.VT_FULLTABLES)
 \* every (processors, replacing processors) table over the rules that matter for the shape;
 \* for shapes with more than FullTables objects: every replacement subset with all rules
-\* registered, every table that leaves out one rule (or all) without replacement -- for each
+\* registered, every table that leaves out one rule, registers one rule only, or none -- for each
 \* object that is every combination of own/declared rule registered and, with both
 \* registered, of own/declared processor replacing
 Tables(s) ==
   LET rel == RelevantRules(s) IN
   SetToSeq(IF Len(s) <= FullTables
            THEN {<<P, R>> \in (SUBSET rel) \X (SUBSET rel) : R \subseteq P}
-           ELSE {<<rel, R>> : R \in SUBSET rel} \cup {<<rel \ {r}, {}>> : r \in rel} \cup {<<{}, {}>>})
+           ELSE {<<rel, R>> : R \in SUBSET rel} \cup {<<rel \ {r}, {}>> : r \in rel}
+                \cup {<<{r}, {}>> : r \in rel} \cup {<<{}, {}>>})
 
 C13Scenarios(u) ==
   LET S == Shapes IN
@@ -207,7 +214,7 @@ C33Scenarios(u) ==
         base(main) == Build(s, rs, main, procs, <<>>, NoFault)
         b0 == base("main.m")
         objSites == {<<"obj", x[1], x[2]>> : x \in {x \in (1..Len(s)) \X RelevantRules(s) : ExpectedCount(b0, x[1], x[2]) = 1}}
-        matchSites == {<<"match", o, "ID">> : o \in {o \in 1..Len(s) : s[o].kind \in {"Pkg", "Cell", "DefA", "DefB"}}}
+        matchSites == {<<"match", o, "ID">> : o \in {o \in 1..Len(s) : s[o].kind \in {"Pkg", "Cell", "DefA", "DefB", "Note"}}}
         sites == SetToSeq(objSites \cup matchSites)
         flt(x, e, w) ==
           [on |-> TRUE, proc |-> x[1], obj |-> x[2], rule |-> x[3], exc |-> e.exc, wrap |-> w,
